@@ -33,8 +33,12 @@ def idxset(n, s):
 # ---------------------------------------------------------------------------------------------
 # slice 1: normalisation + shape / empty / full on every slice with indices in [-n, n]
 # ---------------------------------------------------------------------------------------------
+NMAX = {"quick": 8, "thorough": 14}
+_TIER = ["quick"]
+
+
 def gen_norm():
-    for n in range(0, 8):
+    for n in range(0, NMAX[_TIER[0]]):
         vals = [None] + list(range(-n, n + 1))
         for a in vals:
             for b in vals:
@@ -154,7 +158,7 @@ def run_pairs(case):
 # slice 3: pad, scale down/up, centre, boundary
 # ---------------------------------------------------------------------------------------------
 def gen_pad():
-    for n in range(0, 8):
+    for n in range(0, NMAX[_TIER[0]]):
         vals = [None] + list(range(-n, n + 1))
         for a in vals:
             for b in vals:
@@ -340,6 +344,7 @@ def run_pts(case):
 
 
 def slices(tier):
+    _TIER[0] = tier
     return [
         e1.Slice("normalise", gen_norm, run_norm, "n in 0..7, every slice(a,b) a,b in {None}+[-n,n], every int index"),
         e1.Slice("intersect", gen_pairs, run_pairs, "all ordered pairs of slices/ints on [0,9] incl. reversed"),
@@ -355,7 +360,7 @@ def main(ctx):
         "complete Cartesian products of small integer domains; a case is non-trivial when the "
         "operand selects something / at least one finite point; distinct by (slice, case) hash"
     )
-    ctx.bounds = {"n": "0..7", "pairs_on": "[0,9]", "pad": "0..3", "scale": "1..5",
+    ctx.bounds = {"n": f"0..{NMAX[ctx.tier] - 1}", "pairs_on": "[0,9]", "pad": "0..3", "scale": "1..5",
                   "point_alphabet": [repr(p) for p in PTS]}
     ctx.assumptions = [
         "numpy indexing on arange(n) is the reference semantics",
